@@ -86,6 +86,19 @@ def fileio_jobs(Job, cfg=CFG_NDEBUG, tier="quick"):
     return js
 
 
+IDENT_GROUP = ["smells_like_hdfs", "get_dfs_sector_count", "get_hdfs_sector_count", "smells_like_watford"]
+
+
+def ident_jobs(Job, cfg=CFG_NDEBUG, tier="quick"):
+    def J(name, entry, enforce, **kw):
+        return Job("D_%s_%s" % (name, cfg[0]), "harness/dfs_identify.c", entry, enforce=enforce, defines=list(cfg[1]),
+                   extract=ext(IDENT_GROUP), tier=tier, **kw)
+    return [J("smells_like_hdfs", "h_hdfs", ["smells_like_hdfs"]),
+            J("get_dfs_sector_count", "h_dfs_count", ["get_dfs_sector_count"]),
+            J("get_hdfs_sector_count", "h_hdfs_count", ["get_hdfs_sector_count"]),
+            J("smells_like_watford", "h_watford", ["smells_like_watford"], loops=True, cover=True)]
+
+
 DFS_TRUSTED = [
     "engine/cxx2c.py: the verified text is the function body extracted from /repo on every run; rules fired and SHA-256 of the source range are in coverage.jobs[].extracted",
     "models/dfs_model.h: DataAccess::read_block as a deterministic partial function with a call log; std::function visitors as monitored calls; "
